@@ -22,9 +22,11 @@ import Ark.Model.AffGroup
     `read_exact` on a short input consumes what is left and fails with `UnexpectedEof`
     (⇒ `SerializationError::IoError`).  Deserialisers live in the monad `M`.
   * outcomes distinguish `ok v`, `err io|invalid|notenough|flags` and `panic`.
-  * `usize` subtraction wraps modulo `2^64` (the harness is built with `overflow-checks = false`
-    and without debug assertions; this is only reachable for hand-written configurations with more
-    limbs than the modulus needs, see `SerBuf.writeUpTo`).
+  * `usize` subtraction is written as wrapping subtraction (`wsub`; release profile without overflow
+    checks).  It never wraps for a real configuration: `MODULUS_BIT_SIZE = 64 (N-1) + bitlen(top limb)`
+    is at least `64 (N-1)`, so `num_bytes ≥ 8 (N-1)`.  (For a hand-written configuration whose
+    top modulus limb is zero and `EmptyFlags`, `num_bytes = 8 (N-1)` exactly: zero bytes of the last
+    limb are written/read — a debug build would stop at `debug_assert!(num_bytes > 8 * (N - 1))`.)
   * the point layer is generic in the coordinate field `F` (core operator classes) plus a record
     `Codec F` of what Rust gets from `Field`/`CanonicalSerializeWithFlags`/`Ord` beyond the operators:
     (de)serialisation with flags, `sqrt` (ANY root — the sign rule below makes the result
@@ -32,7 +34,8 @@ import Ark.Model.AffGroup
     `is_in_correct_subgroup_assuming_on_curve` is a field of the curve record.
 
   The ZCash encoding of `/repo/curves/bls12_381` is NOT modelled: that crate is not a dependency
-  of the harness, and `ark_test_curves::bls12_381` uses the default (de)serialisers modelled here.
+  of the harness, and `ark_test_curves::bls12_381` uses the default (de)serialisers modelled here
+  (its G2 overrides only the subgroup test, modelled as `g2InSubgroup`).
 
   Mathlib-free: linked into the `arkdrv` executable.
 -/
